@@ -19,6 +19,10 @@ import (
 	"sync"
 )
 
+// repositoryClosedMarker is the key Close leaves in the repository map (no crl location identifier is empty):
+// a closed repository takes no new entries and every lookup reports that it was closed
+const repositoryClosedMarker = ""
+
 type Repository struct {
 	Factory           crlstore.Factory
 	crlRepositoryLock *sync.RWMutex
@@ -100,7 +104,11 @@ func (R *Repository) isEntryLoaded(entry *Entry) bool {
 func (R *Repository) getOrAddEntry(identifier string, loader crlloader.CRLLoader, chains *core.CertificateChains) (*Entry, bool, error) {
 	R.crlRepositoryLock.Lock()
 	defer R.crlRepositoryLock.Unlock()
-	entry := R.crlRepository[identifier]
+	entry, present := R.crlRepository[identifier]
+	if _, closed := R.crlRepository[repositoryClosedMarker]; closed || (present && entry == nil) {
+		//a handshake which is still running while the repository gets closed must not open a store again, nobody would close it
+		return nil, false, errors.New("repository was closed")
+	}
 	if entry == nil {
 		entry, err := R.addNewEmptyEntry(loader, identifier, chains)
 		if err != nil {
@@ -701,8 +709,11 @@ func (R *Repository) Close() {
 	R.crlRepositoryLock.Lock()
 	defer R.crlRepositoryLock.Unlock()
 	for id, entry := range R.crlRepository {
-		R.closeRepositoryEntry(entry, id)
+		if entry != nil {
+			R.closeRepositoryEntry(entry, id)
+		}
 	}
+	R.crlRepository[repositoryClosedMarker] = nil
 }
 
 func (R *Repository) closeRepositoryEntry(entry *Entry, id string) {
